@@ -84,7 +84,7 @@ def scenario(big: bool = False) -> Any:
         "W": st.sampled_from([None, None, 0, 0.5, 2.0, 5.0]),
         "msgs": st.lists(msg, min_size=0, max_size=12 if big else 7),
         "stop": cm.times(60), "has_stop": st.booleans(),
-        "park": st.sampled_from([False, False, False, True]),
+        "park": st.sampled_from([False, False, True]),
         "clock_step": st.sampled_from([0, 0, 0, -30.0, -0.5, 3600.0]),
         "neighbour": st.sampled_from([False, False, False, True]),
         "ack_type": st.sampled_from(["when_saved", "when_saved", "when_executed", "when_received"]),       # a second, busy worker in the same process
@@ -98,7 +98,7 @@ def scenario(big: bool = False) -> Any:
 def parts(tier: str) -> List[Part]:
     if tier == "thorough":
         return [Part("scenarios", "given", shards=16, examples=9000, strategy=lambda: scenario(True), soft_deadline_s=3600)]
-    return [Part("scenarios", "given", shards=12, examples=250, strategy=scenario, soft_deadline_s=150)]
+    return [Part("scenarios", "given", shards=12, examples=600, strategy=scenario, soft_deadline_s=150)]
 
 
 def run_case(sc: Dict[str, Any]) -> Outcome:
